@@ -28,7 +28,9 @@ ASSUMPTIONS = [
     'S1 node formatting, S3 composer; marks: every node gets its own '
     'concrete line (replay: the marks of the real parser)',
     'strong claim on hierarchy-free models (plain, coll, when, styled, '
-    'picky, top_dict, uni, req4): one corruption of a valid base document -- '
+    'picky, top_dict, uni, req4, job -- the last with Unions of a scalar '
+    'and a collection of that scalar, whose members fail with the same '
+    'words at different places): one corruption of a valid base document -- '
     'wrong scalar type at any scalar value, misspelt key, dropped required '
     'key, added key, unknown enum member -- must raise RecognitionError '
     'whose cited lines are all inside the document and include the line of '
@@ -41,7 +43,7 @@ ASSUMPTIONS = [
 ]
 
 STRONG = ['plain', 'coll', 'when', 'styled', 'picky', 'top_dict', 'uni',
-          'req4']
+          'req4', 'job']
 WEAK = ['shapes']
 _CASES = [(MODEL_IDX[n], 0) for n in STRONG + WEAK]
 _CLASS_KEYS = {}
@@ -209,7 +211,7 @@ def _run(case, site, kind):
 
 def corrupted(case: int, site: int, kind: int) -> bool:
     """
-    pre: 0 <= case < 9 and 0 <= site < 28 and 0 <= kind < 5
+    pre: 0 <= case < 10 and 0 <= site < 28 and 0 <= kind < 5
     post: __return__
     """
     s = slice_no(-1)
@@ -221,7 +223,7 @@ def corrupted(case: int, site: int, kind: int) -> bool:
 
 def corrupted_reach(case: int, site: int, kind: int) -> bool:
     """
-    pre: 0 <= case < 9 and 0 <= site < 28 and 0 <= kind < 5
+    pre: 0 <= case < 10 and 0 <= site < 28 and 0 <= kind < 5
     post: __return__
     """
     r = _run(case, site, kind)
@@ -265,6 +267,27 @@ def weak(site: int, mut: int, rsel: int, tag: str, vsel: int,
     return True if r is None else r[1]
 
 
+def empty(which: int) -> bool:
+    """
+    pre: 0 <= which < 40
+    post: __return__
+    """
+    for mi in range(len(MODELS)):       # concrete model index per path
+        if which == mi:
+            outcome, val = pipeline.run_load(mi, None)
+            note(model=MODELS[mi][0], document='(empty)')
+            if outcome != 'raise' or not isinstance(
+                    val, yatiml.RecognitionError):
+                return True
+            msg = str(val)
+            cited = [int(m.group(1)) for m in _CITE.finditer(msg)]
+            if not SYMBOLIC:
+                note(message=msg[-400:], cited_lines=cited)
+            # the null value of an empty document sits at the end of stream
+            return bool(cited) and all(1 <= c <= 2 for c in cited)
+    return True
+
+
 _WEAK_QUICK = [s for s in pipeline.QUICK_SLICES
                if MODELS[BASES[pipeline.slice_of(s)[0]][0]][0] in (
                    'shapes', 'uni', 'loose', 'coll')]
@@ -276,9 +299,13 @@ CONDITIONS = [
               'vlib/pipeline.py (quick: 4 models): every RecognitionError '
               'cites at least one position and every cited line lies inside '
               'the document'},
-    {'fn': 'corrupted', 'slices': list(range(9)), 'quick': 110,
+    {'fn': 'empty', 'quick': 60, 'thorough': 60,
+     'bound': 'the empty document for every document type of the model '
+              'table: a RecognitionError cites a position, inside the '
+              'document'},
+    {'fn': 'corrupted', 'slices': list(range(10)), 'quick': 110,
      'thorough': 300,
-     'bound': 'one slice per model (8 hierarchy-free, 1 hierarchy): every '
+     'bound': 'one slice per model (9 hierarchy-free, 1 hierarchy): every '
               'node of the valid base document x 5 corruption kinds (wrong '
               'scalar type, misspelt key, dropped required key, added key, '
               'unknown enum member)'},
